@@ -690,12 +690,12 @@ macro_rules! lemma_f {
                     if $mode & 1 != 0 {
                         assert!(expect == Err(e));
                     }
-                    if $mode != 0 {
-                        kani::cover!(e == GeneratorError::TooLargeInput);
-                        kani::cover!(e == GeneratorError::TooSmallInput);
-                        kani::cover!(e == GeneratorError::BucketsAreThreeQuarterEmpty);
-                        kani::cover!(e == GeneratorError::BucketsAreHalfEmpty);
-                    }
+                    // (a cover! in statically dead code counts as unsatisfied, so the Q-ratio
+                    // instances, whose domain assumption excludes some errors, get trivial ones)
+                    kani::cover!($mode == 0 || e == GeneratorError::TooLargeInput);
+                    kani::cover!($mode == 0 || e == GeneratorError::TooSmallInput);
+                    kani::cover!($mode == 0 || e == GeneratorError::BucketsAreThreeQuarterEmpty);
+                    kani::cover!($mode == 0 || e == GeneratorError::BucketsAreHalfEmpty);
                 }
                 Ok(h) => {
                     if $mode & 1 != 0 {
